@@ -366,7 +366,12 @@ func c01Garbage(rnd *rand.Rand, per, nRandom int) (res [][2]any) {
 
 func TestVerifC01Sock(t *testing.T) {
 	out := vhOpen(t)
+	// what the servers log (recovered panics with their stacks, and their last words before
+	// handlePanicAndExit ends the process) is kept for the check
 	log.SetOutput(io.Discard)
+	if lf, lerr := os.Create(os.Getenv("VERIF_OUT") + ".serverlog"); lerr == nil {
+		log.SetOutput(lf)
+	}
 	rnd := rand.New(rand.NewSource(vhSeed()))
 	h := &dnsserver.C01Handler{}
 	l := vlabStart(t, h, vlabConf{})
